@@ -13,8 +13,68 @@ from rig import geometry  # noqa: E402
 from rig.links import Links  # noqa: E402
 
 
+C19_FUNCTIONS = ("standard_system_dimensions", "spinn5_eth_coords", "spinn5_local_eth_coord",
+                 "spinn5_chip_coord", "spinn5_fpga_link")
+KNOWN_MUTABLE = {"SPINN5_ETH_OFFSET": np.ndarray, "SPINN5_FPGA_LINKS": dict}
+
+
+def inventory():
+    """Fail closed on state the models do not account for: the models of the C19 functions are stateless,
+    which is only right while rig/geometry.py keeps no module-level mutable object besides the two constant
+    tables, rebinds no global, and the five functions carry no decorator / mutable default / attribute."""
+    import ast
+    import types
+    with open(geometry.__file__.replace(".pyc", ".py")) as f:
+        tree = ast.parse(f.read())
+    for node in ast.walk(tree):
+        if isinstance(node, (ast.Global, ast.Nonlocal)):
+            raise SystemExit("rig/geometry.py line %d: `%s %s` (a function rebinds shared state; the stateless "
+                             "models of the board geometry functions do not cover it)"
+                             % (node.lineno, type(node).__name__.lower(), ", ".join(node.names)))
+    immutable = (type(None), bool, int, float, complex, str, bytes, tuple, frozenset, types.ModuleType,
+                 types.FunctionType, types.BuiltinFunctionType, type)
+    names = []
+    for name, val in sorted(vars(geometry).items()):
+        if name.startswith("__") or isinstance(val, immutable):
+            continue
+        if type(val).__module__ == "numpy" and not isinstance(val, np.ndarray):
+            continue                                  # numpy scalars / ufuncs
+        if name in KNOWN_MUTABLE and isinstance(val, KNOWN_MUTABLE[name]):
+            names.append(name)
+            continue
+        if isinstance(val, type(geometry.Links)):     # classes (Links)
+            continue
+        raise SystemExit("rig/geometry.py: module-level object %s of type %s is not one of the two constant "
+                         "tables the models account for" % (name, type(val).__name__))
+    for node in tree.body:
+        if isinstance(node, ast.FunctionDef) and node.name in C19_FUNCTIONS:
+            if node.decorator_list:
+                raise SystemExit("rig/geometry.py: %s is decorated" % node.name)
+            for dflt in node.args.defaults + [k for k in node.args.kw_defaults if k is not None]:
+                if not (isinstance(dflt, ast.Constant) and isinstance(dflt.value, (int, type(None)))):
+                    raise SystemExit("rig/geometry.py: %s has a default argument that is not an integer" % node.name)
+            for sub in ast.walk(node):
+                tgts = []
+                if isinstance(sub, ast.Assign):
+                    tgts = sub.targets
+                elif isinstance(sub, (ast.AugAssign, ast.AnnAssign)):
+                    tgts = [sub.target]
+                for t in tgts:
+                    for tt in ast.walk(t):
+                        if isinstance(tt, (ast.Attribute, ast.Subscript)):
+                            raise SystemExit("rig/geometry.py line %d: %s stores into an object" % (sub.lineno, node.name))
+    for fn in C19_FUNCTIONS:
+        f = getattr(geometry, fn)
+        if not isinstance(f, types.FunctionType) or f.__dict__:
+            raise SystemExit("rig/geometry.py: %s is not a plain function without attributes" % fn)
+    return names
+
+
 def main():
+    mutable = inventory()
     out = [D.HEADER % "dump_c19.py"]
+    out.append("(* inventory: module-level mutable objects of rig/geometry.py (no `global` statement, no decorator,\n"
+               "   no store into an object in the board geometry functions): %s *)\n" % ", ".join(mutable))
     t = geometry.SPINN5_ETH_OFFSET
     if not isinstance(t, np.ndarray) or t.ndim != 3 or t.shape[2] != 2 or t.dtype.kind != "i":
         raise SystemExit("SPINN5_ETH_OFFSET is not a 3-d integer array with pairs in the last axis")
